@@ -349,6 +349,192 @@ theorem C03_delitem_shows_default (s : Sig) (c c' : Cfg) (i : Nat) (wf : ViewWF 
       subst h
       exact .inl rfl
 
+/-! ### Slice deletion (callables without `*args`) -/
+
+theorem Dict.del_eq_self_of_get_none {α : Type} (d : Dict α) (k : Key) (h : d.get? k = none) :
+    d.del k = d := by
+  induction d with
+  | nil => rfl
+  | cons kv r ih =>
+    obtain ⟨k0, v0⟩ := kv
+    by_cases e : k0 = k
+    · simp [Dict.get?, e] at h
+    · simp only [Dict.get?, e, if_false] at h
+      simp [Dict.del, e, ih h]
+
+/-- A slot whose key is not stored already shows what an unconfigured Buildable shows there. -/
+theorem viewSlots_unset_is_default (s : Sig) (d : Dict Val) (k : Key) (j : Nat) (wf : ViewWF s)
+    (hd : d.NodupKeys) (hk : (posKeys s 0)[j]? = some k) (hc : d.contains k = false) :
+    (viewSlots s d s 0).set j ((viewSlots s ([] : Dict Val) s 0).getD j .nov) = viewSlots s d s 0 := by
+  have hg : d.get? k = none := by
+    unfold Dict.contains at hc
+    cases h : d.get? k with
+    | none => rfl
+    | some v => simp [h] at hc
+  have := viewSlots_del s d k hd s 0 j wf.keysNodup hk
+  rw [Dict.del_eq_self_of_get_none d k hg] at this
+  exact this.symm
+
+theorem mem_sortDesc_ins (x y : Int) : ∀ l : List Int, y ∈ Cfg.sortDesc.ins x l ↔ y = x ∨ y ∈ l := by
+  intro l
+  induction l with
+  | nil => simp [Cfg.sortDesc.ins]
+  | cons z zs ih =>
+    simp only [Cfg.sortDesc.ins]
+    split
+    · simp
+    · simp only [List.mem_cons, ih]
+      constructor
+      · rintro (h | h | h)
+        · exact .inr (.inl h)
+        · exact .inl h
+        · exact .inr (.inr h)
+      · rintro (h | h | h)
+        · exact .inr (.inl h)
+        · exact .inl h
+        · exact .inr (.inr h)
+
+/-- `sorted(indices, reverse=True)` has the same elements. -/
+theorem mem_sortDesc (y : Int) (xs : List Int) : y ∈ Cfg.sortDesc xs ↔ y ∈ xs := by
+  induction xs with
+  | nil => simp [Cfg.sortDesc]
+  | cons x xs ih =>
+    have : Cfg.sortDesc (x :: xs) = Cfg.sortDesc.ins x (Cfg.sortDesc xs) := rfl
+    rw [this, mem_sortDesc_ins, ih]
+    simp
+
+/-- The deletion pass over indices that all lie in the fixed prefix: the placeholder list is
+    untouched and the view is the old one with each visited slot reset, one `List.set` per index. -/
+theorem delPass_prefix (s : Sig) (wf : ViewWF s) (vs : Nat) :
+    ∀ (idxs : List Int) (c c1 : Cfg) (news news' : List Nat), c.args.NodupKeys →
+      (∀ i ∈ idxs, ∃ m : Nat, i = (m : Int) ∧ m < vs ∧ PosUpTo s m) →
+      Cfg.delPass s vs c news idxs = .ok (c1, news') →
+      news' = news ∧ c1.args.NodupKeys ∧
+      viewSlots s c1.args s 0 =
+        idxs.foldl (fun l (i : Int) => l.set i.toNat ((viewSlots s ([] : Dict Val) s 0).getD i.toNat .nov))
+          (viewSlots s c.args s 0) := by
+  intro idxs
+  induction idxs with
+  | nil =>
+    intro c c1 news news' hn _ h
+    simp only [Cfg.delPass, Except.ok.injEq, Prod.mk.injEq] at h
+    obtain ⟨rfl, rfl⟩ := h
+    exact ⟨rfl, hn, rfl⟩
+  | cons index r ih =>
+    intro c c1 news news' hn hall h
+    obtain ⟨m, rfl, hm, hpre⟩ := hall index (List.mem_cons_self ..)
+    have hr : ∀ i ∈ r, ∃ m : Nat, i = (m : Int) ∧ m < vs ∧ PosUpTo s m :=
+      fun i hi => hall i (List.mem_cons_of_mem _ hi)
+    obtain ⟨k, hik, hk⟩ := indexToKey_prefix s c.args m hpre
+    have hlt : (m : Int) < (vs : Int) := by omega
+    simp only [Cfg.delPass, hlt, if_true, hik] at h
+    simp only [List.foldl_cons, Int.toNat_natCast]
+    by_cases hc : c.args.contains k = true
+    · simp only [hc, if_true] at h
+      cases hd : c.delValue k with
+      | error e => simp [hd] at h
+      | ok c2 =>
+        simp only [hd] at h
+        have hn2 : c2.args.NodupKeys := by
+          unfold Cfg.delValue at hd
+          simp only [hc, if_true, Except.ok.injEq] at hd
+          subst hd
+          rw [log_args]
+          exact Dict.nodup_del _ _ hn
+        obtain ⟨e1, e2, e3⟩ := ih c2 c1 news news' hn2 hr h
+        refine ⟨e1, e2, ?_⟩
+        rw [e3, C03_delete_shows_default s c c2 k m wf hn hk hd]
+    · have hc' : c.args.contains k = false := by simpa using hc
+      simp only [hc', Bool.false_eq_true, if_false] at h
+      obtain ⟨e1, e2, e3⟩ := ih c c1 news news' hn hr h
+      refine ⟨e1, e2, ?_⟩
+      rw [e3, viewSlots_unset_is_default s c.args k m wf hn hk hc']
+
+/-- Resetting slots one `List.set` at a time, read position by position. -/
+theorem foldl_set_getElemOpt {α : Type} (g : Nat → α) :
+    ∀ (idxs : List Int) (l : List α) (j : Nat),
+      (idxs.foldl (fun l (i : Int) => l.set i.toNat (g i.toNat)) l)[j]? =
+        if (∃ i ∈ idxs, i.toNat = j) then (l[j]?).map (fun _ => g j) else l[j]? := by
+  intro idxs
+  induction idxs with
+  | nil => intro l j; simp
+  | cons i r ih =>
+    intro l j
+    simp only [List.foldl_cons, ih, List.getElem?_set, List.mem_cons, exists_eq_or_imp]
+    by_cases hr : ∃ a, a ∈ r ∧ a.toNat = j
+    · simp only [hr, or_true, if_true]
+      by_cases hi : i.toNat = j
+      · subst hi
+        simp only [if_true]
+        by_cases hl : i.toNat < l.length
+        · simp [hl]
+        · simp [hl, List.getElem?_eq_none (Nat.le_of_not_lt hl)]
+      · simp [hi]
+    · simp only [hr, or_false, if_false]
+      by_cases hi : i.toNat = j
+      · subst hi
+        simp only [if_true]
+        by_cases hl : i.toNat < l.length
+        · simp [hl]
+        · simp [hl, List.getElem?_eq_none (Nat.le_of_not_lt hl)]
+      · simp [hi]
+
+/-- **`del cfg[a:b:st]` on a callable without `*args`**: an accepted slice deletion resets exactly
+    the selected positions — each shows what an unconfigured Buildable shows there (the
+    parameter's default, else NO_VALUE) — leaves every other position as it was, and the list
+    keeps its length (the prefix is fixed; nothing shifts, unlike `del` on a Python list). Every
+    step sign; the deletion order (`sorted(..., reverse=True)`) is irrelevant to the result. -/
+theorem C03_delslice_resets_selected (s : Sig) (c c' : Cfg) (k : Cfg.SliceK) (wf : ViewWF s)
+    (hvp : s.vpStart = none) (hn : c.args.NodupKeys)
+    (hpos : ∀ m, m < (s.allPositional c.args).length → PosUpTo s m)
+    (h : c.delSlice s k = .ok c') :
+    ∃ a b st, Py.sliceIndices (Cfg.resolveSlice s k) (s.allPositional c.args).length = some (a, b, st) ∧
+      (viewSlots s c'.args s 0).length = (viewSlots s c.args s 0).length ∧
+      ∀ j : Nat, (viewSlots s c'.args s 0)[j]? =
+        if (j : Int) ∈ Py.rangeList a b st
+        then ((viewSlots s c.args s 0)[j]?).map (fun _ => (viewSlots s ([] : Dict Val) s 0).getD j .nov)
+        else (viewSlots s c.args s 0)[j]? := by
+  unfold Cfg.delSlice at h
+  cases hsl : Py.sliceIndices (Cfg.resolveSlice s k) (s.allPositional c.args).length with
+  | none => simp [hsl] at h
+  | some t =>
+    obtain ⟨a, b, st⟩ := t
+    simp only [hsl] at h
+    refine ⟨a, b, st, rfl, viewSlots_length s _ _ s 0, ?_⟩
+    unfold Cfg.delIndices at h
+    simp only [hvp, Option.getD_none] at h
+    cases hp : Cfg.delPass s (s.allPositional c.args).length c
+        (List.range (s.allPositional c.args).length) (Cfg.sortDesc (Py.rangeList a b st)) with
+    | error e => simp [hp] at h
+    | ok r =>
+      obtain ⟨c1, news⟩ := r
+      simp only [hp, Nat.sub_self, List.range'_zero, Cfg.delCompact, Except.ok.injEq] at h
+      subst h
+      have hall : ∀ i ∈ Cfg.sortDesc (Py.rangeList a b st),
+          ∃ m : Nat, i = (m : Int) ∧ m < (s.allPositional c.args).length ∧ PosUpTo s m := by
+        intro i hi
+        rw [mem_sortDesc] at hi
+        obtain ⟨h0, hlt⟩ := Py.rangeList_bounds _ _ a b st hsl i hi
+        refine ⟨i.toNat, (Int.toNat_of_nonneg h0).symm, by omega, hpos i.toNat (by omega)⟩
+      obtain ⟨_, _, hv⟩ := delPass_prefix s wf _ _ c c1 _ _ hn hall hp
+      intro j
+      rw [hv, foldl_set_getElemOpt (fun n => (viewSlots s ([] : Dict Val) s 0).getD n .nov)]
+      have hiff : (∃ i ∈ Cfg.sortDesc (Py.rangeList a b st), i.toNat = j) ↔ (j : Int) ∈ Py.rangeList a b st := by
+        constructor
+        · rintro ⟨i, hi, rfl⟩
+          rw [mem_sortDesc] at hi
+          obtain ⟨h0, _⟩ := Py.rangeList_bounds _ _ a b st hsl i hi
+          rwa [Int.toNat_of_nonneg h0]
+        · intro hj
+          exact ⟨(j : Int), (mem_sortDesc _ _).mpr hj, by simp⟩
+      simp only [hiff]
+
+/-- Non-vacuity: `del cfg[::2]` on `f(p=…, q=…, r=…)` with all three set is accepted, resets
+    slots 0 and 2 to their defaults and leaves slot 1. -/
+example : ((({ args := [(.name "p", .v 1), (.name "q", .v 2), (.name "r", .v 3)] } : Cfg).delSlice sg3
+    { step := some 2 }).toOption.map (fun c' => sg3.allPositional c'.args)) = some [.d "p", .v 2, .d "r"] := by
+  decide
+
 /-! ### Attribute edits behave like a dict restricted to the signature -/
 
 /-- A name is accepted by `setattr` exactly when it names a keyword-capable parameter, or the
